@@ -601,7 +601,7 @@ Proof.
   destruct (split_first_space (Base.strip input)) as [a0 a1].
   set (second := match a1 with Some r => Base.strip (no_color r) | None => [] end) in *.
   destruct (Base.strip (no_color a0)) as [|f0 fr].
-  - destruct second as [|s0 sr]; [|discriminate H].
+  - destruct second as [|s0 sr]; [|exact (IH _ _ _ _ _ H)].
     change (str_eqb (s2l "help") [119%N] || str_eqb (s2l "help") (s2l "wl")) with false in H.
     cbv beta iota in H.
     change (get_command' on (if starts_with (s2l "wl") (s2l "help") then skipn 2 (s2l "help") else s2l "help"))
